@@ -82,6 +82,27 @@ Theorem C04_stripe_avx2_spec : forall K (s : list nat) (old : sseq),
   exists st, stripe_into_avx2 K s old = Ok st /\ Striped K 32 s st /\ swrap st = 0.
 Proof. exact stripe_into_avx2_spec. Qed.
 
+(* in particular the kernel never reaches a model failure: no vector load outside the
+   sequence slice (site 90 -- the condition of the block loop, translated from avx2.rs
+   as GenStripeNet.blk_cond, keeps the last of the 32 loads inside), no store outside
+   the matrix (91), no failed assert (92), no index panic, enough fuel *)
+Theorem C04_stripe_avx2_no_failure : forall K (s : list nat) (old : sseq),
+  wf_matrix 32 (mat old) ->
+  (forall site, stripe_into_avx2 K s old <> Panic site) /\
+  (forall e, stripe_into_avx2 K s old <> Err e) /\
+  stripe_into_avx2 K s old <> OutOfFuel.
+Proof.
+  intros K s old Hwf.
+  destruct (stripe_into_avx2_spec K s old Hwf) as (st & H & _).
+  rewrite H. repeat split; intros; discriminate.
+Qed.
+
+(* the translated loop condition, as used by the proof: a whole 32-row block exists and
+   the last vector load of the block ends inside the sequence *)
+Theorem C04_block_condition : forall R i L,
+  blk_cond i R L = true -> i + 32 <= R /\ 31 * R + i + 32 <= L.
+Proof. intros R i L. exact (blk_cond_true R i L). Qed.
+
 (* Pipeline<A, Dispatch>::stripe_into: whichever arm runs (table translated from
    dispatch.rs), the result is the generic one *)
 Theorem C04_stripe_dispatch_eq : forall K (a : arm) (s : list nat) (old : sseq),
@@ -131,6 +152,20 @@ Theorem C04_striped_history : forall K C (ops : list op) (s : list nat) (st : ss
   exists st', run K C st ops = Ok st' /\ Striped K C (last_seq s ops) st' /\
               swrap st' = wrap_after (swrap st) ops.
 Proof. intros K C ops s st HC. exact (run_spec K C HC ops s st). Qed.
+
+(* ... starting from ANY buffer (stale contents, stale len / wrap) when the history
+   begins with a stripe_into *)
+Theorem C04_history_stale_start : forall K C (b : backend) (s0 : list nat) (ops : list op) (old : sseq),
+  0 < C -> wf_matrix C (mat old) -> forallb (op_typed C) (OStripeInto b s0 :: ops) = true ->
+  exists st', run K C old (OStripeInto b s0 :: ops) = Ok st' /\
+              Striped K C (last_seq s0 ops) st' /\ swrap st' = wrap_after 0 ops.
+Proof.
+  intros K C b s0 ops old HC Hwf Ht. cbn [forallb op_typed] in Ht.
+  apply andb_true_iff in Ht. destruct Ht as [Hb Ht].
+  destruct (stripe_into_spec K C HC b s0 old Hb Hwf) as (st1 & H1 & HS1 & Hw1).
+  destruct (run_spec K C HC ops s0 st1 HS1 Ht) as (st2 & H2 & HS2 & Hw2).
+  exists st2. cbn [run step]. rewrite H1. cbn [rbind]. rewrite <- Hw1. auto.
+Qed.
 
 (* ... starting from StripedSequence::default(), and after every prefix *)
 Theorem C04_history_from_default : forall K C (ops : list op) (n : nat),
